@@ -22,6 +22,12 @@ CHECKS = {
   "validity test are decided for all inputs. The HashMap-based fit/transform/CategoryMapper are outside (not encodable).",
   "Trusts Kani/CBMC; reaches the crate-private find_new_idxs through the cfg(feature=verif) hook; OneHotEncoder::{fit,transform} end-to-end and CategoryMapper identities are not covered (std HashMap does not finish in CBMC).",
   "DESIGN.md 6/C18"),
+ "C15": (True,
+  "For every label/score vector of length <= 4 (5 thorough; AUC scores any finite f32 incl. ties, labels symbolic; regression targets on an integer or half-integer lattice) "
+  "CBMC proves that the real accuracy, precision, recall, F-beta (beta in {1/2,1,2}), ROC-AUC, MSE, MAE and R^2 code returns exactly the value of the textbook definition "
+  "(integer/rational oracle) and that the seven pairwise metrics panic on vectors of different length. The homogeneity/completeness/V-measure clause is NOT covered (HashMap + ln: not encodable).",
+  "Trusts Kani/CBMC; n > 5, off-lattice regression targets and the whole cluster-score clause (cluster_hcv, cluster_helpers) are outside the claim; AUC only on the insertion-sort path of quick_argsort (n <= 7).",
+  "DESIGN.md 6/C15"),
 }
 
 NA = {
